@@ -114,6 +114,14 @@ def parse(text: str, expect_name: str | None = None) -> tuple[list | None, list[
             if state in ("endgroup", "endpart", "end"):
                 continue
         if fatal:
+            # block structure is lost; keep collecting the event names for the name check
+            m = _EVENT_RE.match(line)
+            if m:
+                name = m.group(2)
+                if ",BCNT," in name or ",LCNT," in name or name.endswith(",BCNT"):
+                    info["bcnt"] = True
+                    name = name.split(",")[0]
+                info["names"].append(name)
             continue
         # ---- statements --------------------------------------------------------------
         if seq_terminated(cur) and line not in (
